@@ -275,6 +275,7 @@ func InitQux() *Qux {
 	case "noinj":
 		return []world.File{
 			f("model.go", basicModel),
+			f("driver.go", "package {P}\n\nimport _ \"container/heap\" // blank import in a package without injectors\n"),
 		}
 	case "bad_missing":
 		return []world.File{
@@ -457,7 +458,11 @@ func InitBar() Bar {
 	case "lib_ok", "lib_badset":
 		body := `package lib
 
-import "github.com/google/wire"
+import (
+	_ "container/ring" // a blank import in a package without injectors: must never reach another package's output
+
+	"github.com/google/wire"
+)
 
 // Dep is provided by Set.
 type Dep struct{ N int }
